@@ -145,7 +145,10 @@ class MultiAgentProblem(  # type: ignore[misc]
         return res
 
     def clone(self):
-        new_p = MultiAgentProblem(self._name, self._env)
+        # the per-type defaults must be known when the MAEnvironment and the Agents of the clone are created
+        new_p = MultiAgentProblem(
+            self._name, self._env, initial_defaults=self._initial_defaults.copy()
+        )
         new_p.ma_environment._fluents = self.ma_environment._fluents.copy()
         new_p.ma_environment._fluents_defaults = (
             self.ma_environment._fluents_defaults.copy()
